@@ -481,3 +481,78 @@ def check_C19(ctx):
              'as a ghost, that equal (algorithm, parameters, seed, call history) implies equal outputs; samples of 8192 draws must have every bit frequency and every lag-2^k agreement in '
              '[1/4,3/4] and a 16-bucket histogram within a factor 2. distinct = distinct calls; non-trivial = a draw of at least two limbs or a statistics sample',
         explanation='range/termination models + trace validation with a reproducibility ghost and whole-sample statistics')
+
+
+# ------------------------------------------------------------------------------------------------ C14
+CPU_VARIANTS = ['netburst', 'k8', 'k10', 'k102', 'bulldozer', 'piledriver', 'bobcat', 'core2', 'penryn', 'nehalem', 'westmere', 'sandybridge',
+                'ivybridge', 'haswell', 'haswellavx', 'broadwell', 'skylake', 'skylakeavx', 'atom']
+OPTION_VARIANTS = ['none', 'fat', 'assert', 'alloca-debug', 'alloca-reentrant']
+BATTERY = [('c14_kern', 2), ('c03_mpn', 2), ('c01_mul1', 1), ('c02_tdiv', 2), ('c02_div1', 1), ('c10_mpn', 1), ('c09_mpn', 1), ('c07_mpn', 1), ('c06_mpn', 1),
+           ('c01_mpz', 1), ('c02_mpz', 2), ('c07_mpz', 2), ('c08_powm', 2), ('hist', 2)]
+
+
+def linked_kernels(build):
+    """which assembly file provides which routine in this variant (the mpn/*.as* links configure made)"""
+    d = os.path.join(build, 'mpn'); out = {}
+    for f in sorted(os.listdir(d)):
+        p = os.path.join(d, f)
+        if os.path.islink(p) and (f.endswith('.as') or f.endswith('.asm')):
+            tgt = os.path.realpath(p)
+            out[f.rsplit('.', 1)[0]] = tgt.split('/mpn/', 1)[-1]
+    return out
+
+
+def check_C14(ctx):
+    import random, concurrent.futures as cf
+    from verif import sh
+    q = ctx.tier == 'quick'
+    rng = random.Random(ctx.seed)
+    r = ctx.tlc_model('FatInit', cfg_text=cfg(spec='Spec', consts={'Threads': '{1, 2}' if q else '{1, 2, 3}', 'NF': 2, 'NT': 2, 'Ops': 2, 'Variant': '"ok"'},
+                      inv=('AlwaysDecided', 'SlotsSane', 'FinalVector', 'FlagImpliesInstalled')), name='FatInit', timeout=3000)
+    ctx.model_must_hold(r, what='(lazy initialisation of the fat dispatch vector under every interleaving)')
+    variants = ['default'] + OPTION_VARIANTS + ['cpu-' + c for c in (rng.sample(CPU_VARIANTS, 3) if q else CPU_VARIANTS)]
+    # build the variants, 6 at a time (each scratch build is a separate directory keyed by the hash of /repo's tree)
+    builds = {}
+    def bld(v):
+        try: return v, ctx.build(v), None
+        except Machinery as e: return v, None, str(e)
+    with cf.ThreadPoolExecutor(max_workers=4) as ex:
+        for v, b, err in ex.map(bld, variants):
+            if err: raise Machinery(err)
+            builds[v] = b
+    pairs = set(); not_exec = []; thr_checked = 0
+    for v in variants:
+        b = builds[v]
+        # can the host execute this variant's kernels?  (a SIGILL probe, reported as not executable, never as a failure)
+        rc, out = sh([os.path.join(b, 'verif-hx'), 'smoke', 'quick', '1', os.path.join(ctx.scratch, f'smoke-{v}.ndjson')], timeout=120)
+        if rc != 0 or '"e":"crash","sig":4' in open(os.path.join(ctx.scratch, f'smoke-{v}.ndjson')).read():
+            not_exec.append(v); continue
+        kern = linked_kernels(b)
+        for rname, path in kern.items(): pairs.add((v, path))
+        # the dispatch / parameter models with THIS variant's threshold vector
+        th = probe(ctx, b)
+        N = 500 if q else 900
+        rm = ctx.tlc_model('MulDispatch', cfg_text=cfg(consts=mul_consts(th, N=N)), name=f'MulDispatch-{v}')
+        ctx.model_must_hold(rm, what=f'(variant {v}: callee preconditions under its gmp-mparam.h)')
+        rf = ctx.tlc_model('FFTParams', cfg_text=cfg(consts=fft_consts(th, N1HI=th['MUL_FFT_FULL_THRESHOLD'] + (300 if q else 1500))), name=f'FFTParams-{v}')
+        ctx.model_must_hold(rf, what=f'(variant {v}: FFT parameter selection under its FFT_TAB)')
+        thr_checked += 1
+        # the battery, validated against the SAME specification
+        paths = []
+        for d, shards in BATTERY:
+            paths += ctx.run_driver(b, d, shards=shards, timeout=900, tier='quick')
+        ctx.validate(paths)
+    ctx.notes.append(f'variants built and run: {[v for v in variants if v not in not_exec]}; not executable on this host: {not_exec}')
+    for v in variants:
+        if v != 'default' and builds.get(v):      # variant builds are large: drop them once used
+            import shutil; shutil.rmtree(builds[v], ignore_errors=True)
+    nprog = len(pairs) + len([v for v in variants if v not in not_exec])
+    return ctx.finish('translation_validation',
+        rule='programs = (build variant, assembly file linked for a routine) pairs executed + the variants themselves; each variant (every x86-64 CPU directory mapping of configure.ac, '
+             'pure C, fat, --enable-assert, both alloca modes) is built from the working tree, its thresholds/FFT_TAB are read by a probe and the MulDispatch / FFTParams models are checked '
+             'with them, and a battery of mpn-level and mpz-level drivers (incl. the asm-only kernels by their defining identities) is executed and validated against the same MPIR.tla; '
+             'a disagreement would be a rejected event. quick: default + 5 option variants + 3 seeded CPU variants; thorough: all 19 CPU variants',
+        explanation='same specification for every kernel set / tuning table / build option',
+        extra_cov=dict(programs=nprog, disagreements_checked=ctx.trace_stats['calls'], variants=len(variants), kernel_file_variant_pairs=len(pairs),
+                       threshold_vectors_model_checked=thr_checked, not_executable=not_exec,
+                       samples=ctx.samples[:4] or [{'variant': variants[0]}]))
